@@ -176,23 +176,34 @@ def one_case(ctx, c, sample=False):
 def aniso_case(ctx, rng):
     """fully anisotropic lossless tensors: implementation-side round trip only (no theorem, no model)"""
     j = Y.J()
-    c = gen_case(rng, False, dict(sources=[], sig_e=False, sig_h=False, bloch=False, bloch_vector=[0.0, 0.0, 0.0]))
-    if c["widths"] is None and rng.chance(0.6):   # the averaging stencils are spacing-weighted only on stretched grids
+    c = gen_case(rng, False, dict(sources=[], sig_e=False, sig_h=False))
+    if rng.chance(0.4):   # Bloch phase on one axis: the halo of the averaged curl must carry the phase too
+        ax = rng.randint(0, 2)
+        c["faces"][Y.FACES[2 * ax]] = c["faces"][Y.FACES[2 * ax + 1]] = "bloch"
+        c["bloch"] = True
+        c["bloch_vector"] = [rng.uniform(0.5e7, 2e7) * rng.choice([-1, 1]) for _ in range(3)]
+    if c["bloch"]:
+        c["widths"] = None
+    elif c["widths"] is None and rng.chance(0.6):   # the averaging stencils are spacing-weighted only on stretched grids
         c["widths"] = [[50e-9 * rng.uniform(0.5, 2.0) for _ in range(n)] for n in c["shape"]]
-    c["faces"] = {k: (v if v != "bloch" else "periodic") for k, v in c["faces"].items()}
     c["aniso"] = True
     d = aniso_fails(c)
-    ctx.case(nontrivial=("aniso", c["seed"]), aniso=True, aniso_grid="nonuniform" if c["widths"] else "uniform")
+    ctx.case(nontrivial=("aniso", c["seed"]), aniso=True, aniso_grid="nonuniform" if c["widths"] else "uniform", aniso_bloch=c["bloch"])
     ctx.impl_property_evals += 1
     if d:
         ctx.violation(c, d)
 
 
 def aniso_fails(c):
-    sc = Y.build(c["shape"], c["faces"], widths=c.get("widths"))
+    cplx = bool(c.get("bloch"))
+    sc = Y.build(c["shape"], c["faces"], widths=c.get("widths"), complex_fields=True if cplx else None,
+                 bloch_vector=c.get("bloch_vector", (0.0, 0.0, 0.0)))
     r = np.random.default_rng(c["seed"])
     nx, ny, nz = c["shape"]
     E, H = r.standard_normal((3, nx, ny, nz)), r.standard_normal((3, nx, ny, nz))
+    if cplx:
+        E = E + 1j * r.standard_normal((3, nx, ny, nz))
+        H = H + 1j * r.standard_normal((3, nx, ny, nz))
     E, H = Y.wall_project(sc, E, H)
     # symmetric positive definite inverse-permittivity tensor per cell: A Aᵀ + 0.5 I, flattened row-major to 9 components
     A = r.uniform(-0.3, 0.3, (3, 3, nx, ny, nz))
@@ -258,10 +269,11 @@ def search(ctx, hints):
             ctx.violation(c, d)
             return
     for i in range(ctx.scale(4, 30)):
-        c = gen_case(rng, False, dict(sources=[], sig_e=False, sig_h=False, bloch=False, bloch_vector=[0.0, 0.0, 0.0], aniso=True))
-        if c["widths"] is None and i % 2 == 0:
+        c = gen_case(rng, False, dict(sources=[], sig_e=False, sig_h=False, aniso=True))
+        if c["bloch"]:
+            c["widths"] = None
+        elif c["widths"] is None and i % 2 == 0:
             c["widths"] = [[50e-9 * rng.uniform(0.5, 2.0) for _ in range(n)] for n in c["shape"]]
-        c["faces"] = {k: (v if v != "bloch" else "periodic") for k, v in c["faces"].items()}
         d = aniso_fails(c)
         if d:
             ctx.violation(c, d)
